@@ -26,7 +26,7 @@ def kind_of_observable(expr, ctr):
         return 'pos' if k == 'pos' else ('int' if k == 'int' else 'str')
     if e.endswith(('start_pos', '.sp')):
         return 'pos'
-    if e.endswith(('.line', '.column', 'pos', 'lnum', 'column', 'line_nr')):
+    if e.endswith(('.line', '.column', 'pos', 'lnum', 'column', 'line_nr', '_count', '.code')):
         return 'int'
     return 'str'
 
